@@ -41,12 +41,12 @@ Definition try_cand (x:f64) (neg:bool) (D q:Z) : option (list N) :=
   if D <=? 0 then None else
   let s := (if neg then [45%N] else []) ++ positional D q in
   match parse_f64 s with Some y => if fsame y x then Some s else None | None => None end.
-(* the candidate with n significant digits: the n-digit decimal nearest to the number that parses back to it (the nearer of floor and ceiling first; an exact tie prefers the even last digit) *)
+(* the candidate with n significant digits: the n-digit decimal nearest to the number that parses back to it (the nearer of floor and ceiling first; on an exact tie the upper one, as Rust's shortest-digits generation rounds up when both directions are admissible and the remainder is a half) *)
 Definition cand (x:f64) (neg:bool) (num den k n:Z) : option (list N) :=
   let q := k - n + 1 in
   let N' := num * 10 ^ (Z.max (- q) 0) in let D' := den * 10 ^ (Z.max q 0) in
   let lo := N' / D' in let r := N' mod D' in
-  let first_hi := match Z.compare (2 * r) D' with Gt => true | Lt => false | Eq => Z.odd lo end in
+  let first_hi := match Z.compare (2 * r) D' with Gt => true | Lt => false | Eq => true end in
   if r =? 0 then try_cand x neg lo q
   else if first_hi then (match try_cand x neg (lo + 1) q with Some s => Some s | None => try_cand x neg lo q end)
   else (match try_cand x neg lo q with Some s => Some s | None => try_cand x neg (lo + 1) q end).
